@@ -1,3 +1,4 @@
+import oracle_consumer
 import corr_array
 import corr_construct
 import oracle_image
@@ -35,8 +36,12 @@ def oracle_successive(seed, tier):
     return oracle_image.check_successive(seed, tier)
 
 
+def oracle_consumer_ops(seed, tier):
+    return oracle_consumer.check(seed, tier)
+
+
 def checks(tier):
-    return [corr_readmeta, corr_getitem, corr_layouts, oracle_c01, oracle_successive]
+    return [corr_readmeta, corr_getitem, corr_layouts, oracle_c01, oracle_successive, oracle_consumer_ops]
 
 
 def replay(payload):
